@@ -1,6 +1,7 @@
 (* C13 - Restricted storages expose the same components without changing membership. *)
 From SV Require Import Base.ListX Store.Masked World.Env World.Join World.JoinProps World.JoinAbs World.JoinRefine
-  World.JoinAbsProps World.EnvSim.
+  World.JoinAbsProps World.EnvSim World.JoinEvents.
+From SV Require Import Store.StoreInv.
 
 (* a restricted view is a member exactly where the storage is *)
 Theorem C13_visits_the_storages_members : forall e eids sid mode selmod selrem d others i,
@@ -62,6 +63,21 @@ Theorem C13_join_refines_the_join_on_maps : forall unit av hs excl eids ms keys 
   absrel unit (fst (visit_keys av hs excl eids ms keys e)) (fst (a_visit_keys unit av hs excl eids ms keys S)).
 Proof. exact visit_keys_abs. Qed.
 
+(* on a change-tracking storage a modification event is emitted only for the items that were actually fetched
+   mutably: a restricted item (no other-entity lookups) appends exactly one Modified for its index when the caller
+   fetches it mutably (storage tracked, emission on) and nothing otherwise; reading never emits *)
+Theorem C13_event_only_for_items_fetched_mutably : forall av hs excl eids sid mode selmod selrem d i e ms m,
+  NM.find sid (se_stores e) = Some ms -> MInv ms m -> NS.mem i (ms_mask ms) = true ->
+  env_chan (fst (m_get av hs excl eids (MRestrict sid mode selmod selrem d []) i e)) sid =
+    (if N.eqb mode 1 && N.eqb (N.modulo i selmod) selrem
+     then match ms_wrap ms with WPlain => [] | _ => if ms_emit ms then [EModified i] else [] end
+     else []) ++ env_chan e sid.
+Proof. exact restricted_item_events. Qed.
+
+Theorem C13_reading_emits_nothing : forall e sid i ms m, NM.find sid (se_stores e) = Some ms -> MInv ms m ->
+  NS.mem i (ms_mask ms) = true -> forall s, env_chan (fst (env_jact e sid (JRead i))) s = env_chan e s.
+Proof. exact reading_emits_nothing. Qed.
+
 (* non-vacuity: a tracked storage, only the odd indices fetched mutably (Modified 1, Modified 5; nothing
    for index 2), lookups of a live handle (through get_other_mut: Modified 1 each time on this wrapper)
    and of a dead one *)
@@ -92,3 +108,5 @@ Print Assumptions C13_any_storage_kind.
 Print Assumptions C13_writes_only_the_chosen_items.
 Print Assumptions C13_read_only_views_change_nothing.
 Print Assumptions C13_join_refines_the_join_on_maps.
+Print Assumptions C13_event_only_for_items_fetched_mutably.
+Print Assumptions C13_reading_emits_nothing.
